@@ -145,6 +145,11 @@ def _prune(parent, keep):
     except OSError:
         return
     for d in ds[keep:]:
+        try:    # several checks (other builders, ZV_REPO scratch copies) share this cache: never remove a tree still in use
+            if time.time() - os.path.getmtime(d) < 1800:
+                continue
+        except OSError:
+            continue
         shutil.rmtree(d, ignore_errors=True)
 
 
@@ -219,7 +224,13 @@ def build_harness(name, sources, variant="o1", extra_defs=(), libs=("-lpthread",
             return exe
         os.makedirs(outdir, exist_ok=True)
         for old in glob.glob(os.path.join(outdir, "%s-%s-*" % (name, variant))):
-            os.unlink(old)
+            # concurrent checks (other builders, ZV_REPO scratch copies) use other keys of the same program:
+            # only binaries nobody can still be running are removed
+            try:
+                if time.time() - os.path.getmtime(old) > 3600:
+                    os.unlink(old)
+            except OSError:
+                pass
         ar = [build_lib(variant, extra_defs, pre_include=pre_include, exclude=lib_exclude)] if link_lib else []
         t0 = time.time()
         cmd = [cc] + flags + list(extra_flags) + inc_flags() + ["-I" + i for i in extra_inc] + srcs + ar + list(libs) + ["-o", exe + ".tmp"]
@@ -234,12 +245,46 @@ def build_harness(name, sources, variant="o1", extra_defs=(), libs=("-lpthread",
 # --------------------------------------------------------------------------
 # Coq
 
-def lint_coq():
+def coq_deps(relv):
+    """transitive .v dependencies (inside coq/) of a .v file, from the Require lines"""
+    seen, todo = set(), [relv]
+    while todo:
+        f = todo.pop()
+        if f in seen:
+            continue
+        seen.add(f)
+        try:
+            txt = strip_coq_comments(open(os.path.join(COQ, f)).read())
+        except OSError:
+            continue
+        for m in re.finditer(r"From\s+ZV(?:\.([A-Za-z0-9_.]+))?\s+Require\s+(?:Import\s+|Export\s+)?([^.]+)\.", txt):
+            base = (m.group(1) or "").replace(".", "/")
+            for name in m.group(2).split():
+                cand = os.path.join(base, name.replace(".", "/") + ".v") if base else name.replace(".", "/") + ".v"
+                if os.path.exists(os.path.join(COQ, cand)):
+                    todo.append(cand)
+        for m in re.finditer(r"Require\s+(?:Import\s+|Export\s+)?((?:ZV\.[A-Za-z0-9_.]+\s*)+)\.", txt):
+            for name in m.group(1).split():
+                cand = name[3:].replace(".", "/") + ".v"
+                if os.path.exists(os.path.join(COQ, cand)):
+                    todo.append(cand)
+        for m in re.finditer(r"\bZV\.([A-Za-z0-9_]+)\.([A-Za-z0-9_]+)\.", txt):   # qualified uses like ZV.Gen.Gen_Tables.x
+            cand = "%s/%s.v" % (m.group(1), m.group(2))
+            if os.path.exists(os.path.join(COQ, cand)):
+                todo.append(cand)
+    return seen
+
+
+def lint_coq(scope=None):
+    """forbidden-token scan.  scope=None: the whole development (setup, final audit);
+    scope=set of relative .v paths: only those files (a property's theorem file and its transitive dependencies)."""
     bad = []
     for root, _, files in os.walk(COQ):
         for fn in files:
             if fn.endswith(".v"):
                 p = os.path.join(root, fn)
+                if scope is not None and os.path.relpath(p, COQ) not in scope:
+                    continue
                 txt = open(p).read()
                 txt_nc = strip_coq_comments(txt)
                 for m in FORBIDDEN.finditer(txt_nc):
@@ -449,7 +494,8 @@ class Ctx:
 
     # -- proof step
     def prove(self):
-        bad = lint_coq()
+        self.proof = None      # proof_verdict() must not crash when the lint below stops the proof step
+        bad = lint_coq(coq_deps("Props/Properties_%s.v" % self.pid))
         if bad:
             self.violation(dict(kind="lint", detail=bad[:20]), no_input=True,
                            what="forbidden token in the Coq development: " + "; ".join(bad[:5]))
